@@ -1257,6 +1257,16 @@ def describe(prop):
         "state_measure": "not used for C18 (shapes are the measure)",
         "fault_kinds": ["churn_between", "churn_inside", "cc_invalid", "tempo_jump"],
         "probes": [
+            "theory_chatter_ops",
+            "theory_chatter_call_refused",
+            "theory_chatter_call_cut_short",
+            "music_transposed_after_building",
+            "transposition_not_semitone_exact",
+            "iteration_left_early_before_use",
+            "unison_on_two_channels_in_one_container",
+            "empty_bar_in_parallel_playback",
+            "library_bar_differs_from_what_was_built",
+            "library_track_differs_from_what_was_built",
             "parallel_unequal_rhythm",
             "rest_led_voice",
             "tempo_jump_in_parallel",
